@@ -176,13 +176,25 @@ impl Storable for AnnotationDataSet {
     fn merge(&mut self, other: Self) -> Result<(), StamError> {
         let merge = self.config.merge;
         self.config.merge = true; //enable merge mode for underlying keys and data
+        //the data of the other set refers to keys by the handles they have in the other set:
+        //map those to the handles the keys have (or get) in this set
+        let mut keyhandles: Vec<Option<DataKeyHandle>> = Vec::new();
         for key in other.keys {
             if let Some(key) = key {
-                self.insert(key.unbind())?;
+                keyhandles.push(Some(self.insert(key.unbind())?));
+            } else {
+                keyhandles.push(None);
             }
         }
         for data in other.data {
-            if let Some(data) = data {
+            if let Some(mut data) = data {
+                data.key = keyhandles
+                    .get(data.key.as_usize())
+                    .copied()
+                    .flatten()
+                    .ok_or_else(|| {
+                        StamError::HandleError("AnnotationData refers to a key that does not exist")
+                    })?;
                 self.insert(data.unbind())?;
             }
         }
